@@ -1,4 +1,5 @@
 """C06 - changing the UTC offset never changes the instant."""
+import re
 import types
 from fractions import Fraction
 
@@ -18,7 +19,8 @@ RULE = (
     "fake time module: standard/daylight offsets, daylight flag, tm_isdst) or "
     "TimePointDumper.dump with a format that spells a literal zone (Z, +-hh, "
     "+-hhmm, +-hh:mm x basic/extended x calendar/ordinal/week date forms). "
-    "Oracle: requested offset carried, instant unchanged (vlib.refcal; exact "
+    "Oracle: requested offset carried (native zone fields and the str() of "
+    "the result's zone, read as Z / +-hh:mm), instant unchanged (vlib.refcal; exact "
     "for integer cases, 1 us for decimals), representation kept, fields "
     "valid, library ==, hash == and zero difference (integer and dyadic "
     "cases), dumped text ends with the literal zone and - decoded by an "
@@ -95,6 +97,18 @@ def literal_zone(style, h, m):
     return "%s%02d:%02d" % (sg, abs(h), abs(m))
 
 
+def zone_text_offset(text):
+    """(hours, minutes) that TimeZone.__str__ text denotes (Z or +-hh:mm,
+    minutes carrying the hour's sign), None if it is neither."""
+    if text == "Z":
+        return (0, 0)
+    m = re.match(r"^([+-])(\d\d+):(\d\d)$", text)
+    if not m:
+        return None
+    sg = -1 if m.group(1) == "-" else 1
+    return (sg * int(m.group(2)), sg * int(m.group(3)))
+
+
 def check_case(case):
     mode, kw, route = case["mode"], case["p"], case["route"]
     cm = R.canon(mode)
@@ -127,6 +141,9 @@ def check_case(case):
                 if (n.tzh, n.tzm) != dest:
                     fail = "offset: asked for %r, result carries (%r, %r)" % (
                         dest, n.tzh, n.tzm)
+                elif zone_text_offset(str(q.time_zone)) != dest:
+                    fail = "offset_text: asked for %r, str() of the result's " \
+                           "zone is %r" % (dest, str(q.time_zone))
                 elif n.problems:
                     fail = "fields_valid: mode %s %s -> %r: %s" % (
                         mode, M.fmt_kw(kw), n.f, "; ".join(n.problems))
